@@ -1216,6 +1216,7 @@ func TestVerifMSmall(t *testing.T) {
 
 	msClock(out, rng, n, emit)
 	msIP(out, rng, n, emit)
+	msSequence(out, rng, n, matchers, emit)
 
 	out.Stat("streams_by_class", counts)
 	out.Stat("verdict_on_whole_stream_by_class", fullVerdicts)
@@ -1628,4 +1629,250 @@ func msIP(out *vOut, r *vRng, n int, emit func(string, string, bool, any)) {
 			}
 		}
 	}
+}
+
+// ---------------------------------------------------------------- several matchers on one connection
+
+// A route list evaluates many matchers on the SAME layer4.Connection.  Each verdict must be the one
+// the same matcher gives on a fresh connection with the same bytes, addresses and wrap time: the
+// model is a function of (configuration, bytes, connection facts) only.
+type msStep struct {
+	tag   string
+	desc  string
+	build func() layer4.ConnMatcher
+	coq   func(v string) string // correspondence case carrying the verdict observed in sequence ("" = none)
+}
+
+func msSequence(out *vOut, r *vRng, n int, matchers []msMatcher, emit func(string, string, bool, any)) {
+	hms := func(s int) string { return fmt.Sprintf("%02d:%02d:%02d", s/3600, s/60%60, s%60) }
+	zoneNames := []string{"", "+02", "-03:30", "+12:34:56", "-11", "+14:00", "America/New_York", "Europe/Berlin", "Australia/Sydney", "Asia/Kolkata"}
+	rangeSets := [][]string{{"10.0.0.0/8"}, {"192.168.0.0/16", "127.0.0.1"}, {"2001:db8::/32"}, {"0.0.0.0/0"}, {"::/0"}, {"203.0.113.64/26", "198.51.100.7/32"}, {"10.1.0.0/16", "fe80::/10"}}
+	addrPool := []string{"10.1.2.3", "10.200.0.1", "192.168.0.1", "127.0.0.1", "8.8.8.8", "203.0.113.65", "198.51.100.7", "2001:db8::1", "2001:db9::1", "fe80::1", "::1"}
+	var streamCfgs []msCfg
+	var streamTags []string
+	byTag := map[string][]int{}
+	for _, mm := range matchers {
+		for _, c := range mm.cfgs {
+			byTag[mm.tag] = append(byTag[mm.tag], len(streamCfgs))
+			streamCfgs = append(streamCfgs, c)
+			streamTags = append(streamTags, mm.tag)
+		}
+	}
+
+	type facts struct {
+		b             []byte
+		unix          int64
+		remote, local string
+	}
+	zoneLoc := func(name string) (*time.Location, bool) {
+		if name == "" {
+			return time.UTC, true
+		}
+		for _, layout := range []string{"-07", "-07:00", "-07:00:00"} {
+			if len(layout) == len(name) {
+				if t, e := time.Parse(layout, name); e == nil {
+					_, off := t.Zone()
+					return time.FixedZone(name, off), true
+				}
+			}
+		}
+		loc, err := time.LoadLocation(name)
+		return loc, err == nil
+	}
+	clockStep := func(f facts, zname string, kind int) (msStep, bool) {
+		loc, ok := zoneLoc(zname)
+		if !ok {
+			return msStep{}, false
+		}
+		lt := time.Unix(f.unix, 0).In(loc)
+		_, off := lt.Zone()
+		hh, mi, ss := lt.Clock()
+		sec := hh*3600 + mi*60 + ss
+		d := [][2]int{{-1800, 1800}, {1800, 5400}, {-5400, -1800}, {-600, 600}, {600, 4200}}[kind%5]
+		a, b := sec+d[0], sec+d[1]
+		if a < 0 {
+			a = 0
+		}
+		if b > 86400 {
+			b = 86400
+		}
+		if a >= b {
+			return msStep{}, false
+		}
+		after, before := hms(a), hms(b%86400)
+		return msStep{tag: "clock", desc: fmt.Sprintf("clock %s %s %q", after, before, zname),
+			build: func() layer4.ConnMatcher {
+				m := &l4clock.MatchClock{After: after, Before: before, Timezone: zname}
+				msMust(m.Provision(msCtx))
+				return m
+			},
+			coq: func(v string) string {
+				return fmt.Sprintf("KClock %d %d %s %s %s", a, b%86400, cZ(int64(off)), cZ(f.unix), v)
+			}}, true
+	}
+	ipStep := func(f facts, rs []string, local bool) msStep {
+		var cidrs []msCIDR
+		for _, x := range rs {
+			cidrs = append(cidrs, msParseCIDR(x))
+		}
+		h, tag := f.remote, "remote_ip"
+		if local {
+			h, tag = f.local, "local_ip"
+		}
+		a, _ := netip.ParseAddr(h)
+		return msStep{tag: tag, desc: fmt.Sprintf("%s %v", tag, rs),
+			build: func() layer4.ConnMatcher {
+				if local {
+					m := &layer4.MatchLocalIP{Ranges: rs}
+					msMust(m.Provision(msCtx))
+					return m
+				}
+				m := &layer4.MatchRemoteIP{Ranges: rs}
+				msMust(m.Provision(msCtx))
+				return m
+			},
+			coq: func(v string) string {
+				return fmt.Sprintf("KIp %s (Some (%s, %s, false)) %s", msCIDRsCoq(cidrs), cBool(a.Is6()), msAddrZ(a), v)
+			}}
+	}
+	streamStep := func(f facts, idx int) msStep {
+		c := streamCfgs[idx]
+		return msStep{tag: streamTags[idx], desc: c.coq, build: c.build,
+			coq: func(v string) string {
+				term := c.coq
+				if c.reval != nil {
+					term = strings.ReplaceAll(term, "%REVAL%", cBool(c.reval(f.b)))
+				}
+				return fmt.Sprintf("MS (%s) %s %s false", term, cHex(f.b), v)
+			}}
+	}
+	notStep := func(inner msStep) msStep {
+		return msStep{tag: "not-" + inner.tag, desc: "not{" + inner.desc + "}",
+			build: func() layer4.ConnMatcher {
+				return &layer4.MatchNot{MatcherSets: []layer4.MatcherSet{{inner.build()}}}
+			},
+			coq: func(string) string { return "" }}
+	}
+	newCx := func(f facts) (*msConn, *layer4.Connection) {
+		conn := msNewConn(false)
+		conn.remote = &net.TCPAddr{IP: net.ParseIP(f.remote), Port: 40000}
+		conn.local = &net.TCPAddr{IP: net.ParseIP(f.local), Port: 443}
+		cx := layer4.WrapConnection(conn, append([]byte{}, f.b...), zap.NewNop())
+		repl := cx.Context.Value(layer4.ReplacerCtxKey).(*caddy.Replacer)
+		repl.Set("l4.conn.wrap_time", time.Unix(f.unix, 0).UTC())
+		return conn, cx
+	}
+
+	scenarios, dependent := 0, 0
+	kinds := map[string]int{}
+	total := 2 * n
+	if total < 200 {
+		total = 200
+	}
+	for k := 0; k < total; k++ {
+		f := facts{
+			unix:   time.Date(2026, time.Month(1+r.Intn(12)), 1+r.Intn(28), r.Intn(24), r.Intn(60), r.Intn(60), 0, time.UTC).Unix(),
+			remote: addrPool[r.Intn(len(addrPool))],
+			local:  addrPool[r.Intn(len(addrPool))],
+		}
+		// the bytes come from the generator of one of the stream matchers
+		gi := r.Intn(len(streamCfgs))
+		kind := k % 6
+		sameTag := []string{"socks4", "socks5", "regexp", "not", "anymatch"}[r.Intn(5)]
+		if kind == 2 {
+			gi = byTag[sameTag][r.Intn(len(byTag[sameTag]))]
+		}
+		f.b = streamCfgs[gi].gen(r, r.Intn(64)).b
+		if len(f.b) > layer4.MaxMatchingBytes {
+			f.b = f.b[:layer4.MaxMatchingBytes]
+		}
+		var steps []msStep
+		addClock := func() {
+			if st, ok := clockStep(f, zoneNames[r.Intn(len(zoneNames))], r.Intn(5)); ok {
+				steps = append(steps, st)
+			}
+		}
+		ln := 2 + r.Intn(3)
+		kname := ""
+		switch kind {
+		case 0: // clock matchers of different zones and windows, in every order
+			kname = "clock-clock"
+			perm := r.Intn(len(zoneNames))
+			for j := 0; j < ln; j++ {
+				if st, ok := clockStep(f, zoneNames[(perm+j*3)%len(zoneNames)], r.Intn(5)); ok {
+					steps = append(steps, st)
+				}
+			}
+		case 1: // remote_ip / local_ip with different range sets
+			kname = "ip-ip"
+			for j := 0; j < ln; j++ {
+				steps = append(steps, ipStep(f, rangeSets[r.Intn(len(rangeSets))], r.Intn(3) == 0))
+			}
+		case 2: // one kind of stream matcher under different filters
+			kname = "same-matcher-different-filters"
+			steps = append(steps, streamStep(f, gi))
+			for j := 1; j < ln+1; j++ {
+				steps = append(steps, streamStep(f, byTag[sameTag][r.Intn(len(byTag[sameTag]))]))
+			}
+		case 3: // a clock inside not next to another clock
+			kname = "not-clock-clock"
+			addClock()
+			addClock()
+			addClock()
+			if len(steps) >= 2 {
+				steps[r.Intn(len(steps))] = notStep(steps[r.Intn(len(steps))])
+			}
+		default: // mixed
+			kname = "mixed"
+			for j := 0; j < ln+1; j++ {
+				switch r.Intn(4) {
+				case 0:
+					addClock()
+				case 1:
+					steps = append(steps, ipStep(f, rangeSets[r.Intn(len(rangeSets))], r.Bool()))
+				default:
+					steps = append(steps, streamStep(f, r.Intn(len(streamCfgs))))
+				}
+			}
+		}
+		if len(steps) < 2 {
+			continue
+		}
+		scenarios++
+		kinds[kname]++
+		conn, cx := newCx(f)
+		var descs []string
+		for _, st := range steps {
+			descs = append(descs, st.desc)
+		}
+		for si, st := range steps {
+			vSeq, d := msEval(st.build(), cx)
+			_, fresh := newCx(f)
+			vFresh, _ := msEval(st.build(), fresh)
+			in := map[string]any{"matcher": st.tag, "this": st.desc, "position": si, "sequence": descs, "bytes_hex": fmt.Sprintf("%x", f.b),
+				"remote": f.remote, "local": f.local, "wrap_time": time.Unix(f.unix, 0).UTC().Format(time.RFC3339), "in_sequence": vSeq, "fresh": vFresh}
+			if vSeq == vdPanic {
+				out.Fail("C04:"+st.tag+":panic", d, in)
+			}
+			if vSeq != vFresh {
+				dependent++
+				detail := fmt.Sprintf("as matcher %d of the sequence on one connection the verdict is %s, on a fresh connection with the same bytes, addresses and time it is %s", si+1, vSeq, vFresh)
+				out.Fail("C14:"+st.tag+":verdict-depends-on-earlier-matcher", detail, in)
+				out.Fail("C06:"+st.tag+":nondeterministic", detail, in)
+			}
+			if term := st.coq(vSeq); term != "" {
+				emit(term, "sequence/"+st.tag+"/"+vSeq, true, in)
+			}
+		}
+		if conn.reads != 0 {
+			out.Fail("C06:sequence:network-read", "matching a sequence of matchers read the socket", map[string]any{"sequence": descs})
+		}
+		got := make([]byte, len(f.b)+1)
+		if kk, _ := io.ReadFull(cx, got); kk != len(f.b) || !bytes.Equal(got[:kk], f.b) {
+			out.Fail("C06:sequence:stream-changed", fmt.Sprintf("after the sequence the connection delivers %x", got[:kk]), map[string]any{"sequence": descs, "bytes_hex": fmt.Sprintf("%x", f.b)})
+		}
+	}
+	out.Stat("sequence_scenarios", scenarios)
+	out.Stat("sequence_scenarios_by_kind", kinds)
+	out.Stat("sequence_dependent_verdicts", dependent)
 }
